@@ -35,13 +35,15 @@ def target_functions():
         "increment": evmod._NSIntegralState.increment,
         # before the first iteration: the initial live set is drawn inside the sampling loop's initialisation
         "populate_live_points": NS.populate_live_points, "initialise": NS.initialise,
+        # periodic diagnostics (plot=True is nessai's default): a signal while the state / trace plots are produced
+        "plot_state": NS.plot_state, "plot_trace": NS.plot_trace,
     }
     ins = {
         "ins_loop": INS.nested_sampling_loop, "add_and_update_points": INS.add_and_update_points, "ins_remove_samples": INS.remove_samples,
         "add_new_proposal": INS.add_new_proposal, "add_new_proposal_weight": INS.add_new_proposal_weight, "os_add_samples": OS.add_samples,
         "os_remove_samples": OS.remove_samples, "os_add_to_nested": OS.add_to_nested_samples, "ifp_draw": ipmod.ImportanceFlowProposal.draw,
         "ifp_train": ipmod.ImportanceFlowProposal.train, "ins_update_evidence": INS.update_evidence, "ins_finalise": INS.finalise,
-        "ins_populate_live_points": INS.populate_live_points, "ins_initialise": INS.initialise,
+        "ins_populate_live_points": INS.populate_live_points, "ins_initialise": INS.initialise, "ins_plot_state": INS.plot_state,
     }
     return std, ins
 
@@ -286,6 +288,12 @@ def inject(case):
         model.close_pool()
     except Exception:
         pass
+    if not res["fired"] and fired[0]:
+        # the handler was invoked and raised SystemExit, yet the run went on (or ended in another exception): the exit was swallowed somewhere on the way up
+        res.update(fired=True, exit=None, snap_it=snap.get("it"), snap_line=snap.get("lineno"), pred=snap.get("pred"),
+                   problems=[("handler-ran-but-the-run-continued", dict(interrupted_at_iteration=snap.get("it"), run_ended_with=res.get("error_first_segment", "normal completion")))])
+        shutil.rmtree(out, ignore_errors=True)
+        return res
     if not res["fired"]:
         shutil.rmtree(out, ignore_errors=True)
         return res
@@ -593,6 +601,12 @@ def real_signal(case):
     for sg, ok in reg.items():
         if not ok:
             problems0.append((f"no-handler-registered-for-signal-{sg}", ""))
+    if not res["interrupted"] and os.path.exists(snapfile):
+        # the registered handler ran (it wrote its snapshot) but the process carried on to the end of the run
+        res.update(interrupted=True, fired=True, exit=p.returncode, handler_ran=True,
+                   problems=problems0 + [("real-signal:handler-ran-but-the-process-did-not-exit", dict(rc=p.returncode, expected=case["exit_code"]))])
+        shutil.rmtree(out, ignore_errors=True)
+        return res
     if not res["interrupted"]:
         res["problems"] = problems0
         shutil.rmtree(out, ignore_errors=True)
@@ -652,8 +666,12 @@ def main():
             phases = [1, 12, 30, 55]    # the uninformed proposals are only in use until the switch to the flow proposal (iteration 60 here)
         if t["func"] in ("populate_live_points", "initialise", "ins_populate_live_points", "ins_initialise"):
             phases = [0]                # the initial draw, before the first iteration
+        if t["func"] in ("plot_state", "plot_trace"):
+            phases = [1, 61]            # the plots are produced every nlive (= 50) iterations
         if chk.quick:
             # every line of the core replace step once, every 2nd-3rd line elsewhere, phase chosen by the seed
+            if t["func"] in ("plot_state", "plot_trace", "ins_plot_state") and k % 12:
+                continue   # long plotting functions, slow runs: every 12th line in the quick tier
             if t["func"] not in core and t["sampler"] == "std" and k % 3:
                 continue
             if t["sampler"] == "ins" and k % 3:
@@ -663,6 +681,8 @@ def main():
             sel = phases
         if t["func"] in ("an_draw",):
             kwargs = {"analytic_priors": True}
+        elif t["func"] in ("plot_state", "plot_trace", "ins_plot_state"):
+            kwargs = {"plot": True}
         else:
             kwargs = {}
         # configuration variants of the checkpoint schedule: the handler must leave a resumable state whatever the periodic schedule is
@@ -782,12 +802,14 @@ def main():
     rs_cases = []
     sync = [("std", "consume_sample", 1, signal.SIGTERM, 130), ("std", "yield_sample", 30, signal.SIGINT, 7), ("std", "fp_populate", 61, signal.SIGALRM, 3),
             ("ins", "ins_loop", 2, signal.SIGALRM, 130), ("ins", "add_and_update_points", 2, signal.SIGTERM, 7), ("ins", "ifp_draw", 2, signal.SIGINT, 3),
-            ("std", "update_state", 1, signal.SIGALRM, 130), ("std", "check_state", 61, signal.SIGTERM, 130), ("std", "nested_sampling_loop", 30, signal.SIGINT, 130)]
+            ("std", "update_state", 1, signal.SIGALRM, 130), ("std", "check_state", 61, signal.SIGTERM, 130), ("std", "nested_sampling_loop", 30, signal.SIGINT, 130),
+            ("std", "plot_state", 1, signal.SIGINT, 9), ("ins", "ins_plot_state", 1, signal.SIGTERM, 9)]
     if not chk.quick:
         sync = sync + [(s_, f_, ph + 2, [signal.SIGTERM, signal.SIGINT, signal.SIGALRM][(j + 1 + [signal.SIGTERM, signal.SIGINT, signal.SIGALRM].index(sg)) % 3], ec)
                        for j in range(2) for (s_, f_, ph, sg, ec) in sync]
     for i, (s_, fn, ph, sg, ec) in enumerate(sync):
-        rs_cases.append(dict(sampler=s_, func=fn, min_it=ph, signum=int(sg), exit_code=ec, kwargs={}, outdir=os.path.join(chk.scratch, f"real-{i}"), _timeout=500))
+        rs_cases.append(dict(sampler=s_, func=fn, min_it=ph, signum=int(sg), exit_code=ec, kwargs={"plot": True} if "plot" in fn else {},
+                             outdir=os.path.join(chk.scratch, f"real-{i}"), _timeout=500))
     cal_cases = [dict(sampler=s_, calibrate=how, kwargs={}, outdir=os.path.join(chk.scratch, f"cal-{s_}-{how}"), _timeout=450) for s_ in ("std", "ins") for how in ("time", "calls")]
     cal = {}
     if not chk.args.only or chk.args.only in ("real", "async"):
